@@ -29,10 +29,11 @@ class V:
         return self.path.rsplit('::', 1)[-1]
 
     def __eq__(self, o):
-        return isinstance(o, V) and tail2(self.path) == tail2(o.path) and self.fields == o.fields
+        # `repr` (the discriminant value of a fieldless enum variant, used by `as` casts) is determined by the variant: not part of the identity
+        return isinstance(o, V) and tail2(self.path) == tail2(o.path) and {k: v for k, v in self.fields.items() if k != 'repr'} == {k: v for k, v in o.fields.items() if k != 'repr'}
 
     def __hash__(self):
-        return hash((tail2(self.path), tuple(sorted((k, repr(v)) for k, v in self.fields.items()))))
+        return hash((tail2(self.path), tuple(sorted((k, repr(v)) for k, v in self.fields.items() if k != 'repr'))))
 
     def __repr__(self):
         if not self.fields:
